@@ -22,6 +22,9 @@ OPTS = ["filter_unused_linenum", "initialize_vars", "default_width32", "output_d
 def program():
     S = lambda *t: E.BasicStatements([OpqStmt(x) if isinstance(x, str) else x for x in t])
     return [
+        # line 0 is a label like any other (nothing refers to it); the literal holds every character str.splitlines()
+        # treats as a line end besides CR/LF: text inside a literal is data in every option setting
+        E.BasicLine(0, S("q0", E.BasicAssignment(E.BasicVar("C$", True), E.BasicLiteral("T\x0bO\x0cP\x1cB\x1dO\x1eT\x85T\u2028O\u2029M", is_str_expr=True)))),
         E.BasicLine(10, S("q1", E.BasicDimStatement([aref("M", (2,)), E.BasicVar("D$", True)]))),
         E.BasicLine(20, S(E.BasicAssignment(E.BasicVar("A$", True), E.BasicVar("X")), E.BasicIf(OpqExp("c"), E.BasicGoto(40, True)))),
         E.BasicLine(30, S(E.BasicAssignment(aref("J", (1,)), E.BasicVar("Y")), E.BasicRunCall("RUN ecb_string", E.BasicExpressionList([E.BasicVar("X"), E.BasicVar("A$", True), E.BasicVar("B$", True)])))),
@@ -29,7 +32,7 @@ def program():
         E.BasicLine(50, S("q3")),
         E.BasicLine(60, S("q4")),
         E.BasicLine(70, S("q5")),
-        E.BasicLine(80, S("q6")),
+        E.BasicLine(80, S("q6", E.BasicAssignment(E.BasicVar("D$", True), E.BasicVar("B$", True)))),   # D$ is DIMensioned in line 10 *and* used
     ]
 
 
@@ -110,6 +113,10 @@ def footprints():
             return "more than the prologue assignments and the array fill loops differs"
         if "X := 0.0" not in on or "FOR tmp_1 = 0 TO 2" not in on:
             return "initialisation missing when asked"
+        prologue = user_part(on).split("⟦q0@")[0]
+        names = re.findall(r"(?m)^\s*([A-Z][A-Z0-9]?\$?) := (?:0\.0|\"\")\s*$", prologue.replace(" \\ ", "\n"))
+        if names != ["A$", "B$", "C$", "X", "Y"]:
+            return "prologue assigns %s; the scalars used and not DIMensioned by the source are A$, B$, C$, X, Y (D$ has its own DIM)" % names
         if "X := 0.0" in off or "FOR tmp_1" in off:
             return "initialisation present when not asked"
         return True
@@ -138,6 +145,22 @@ def footprints():
             return "sizes not applied"
         return True
     out += check("str80", p_str, "only declared string sizes (DIM suffixes, allocation lines, library placeholders)")
+
+    def small():
+        bad = []
+        for s in settings:
+            if not s["str80"]:
+                continue
+            opaque.reset()
+            t16 = convert_ast(program, filter_unused_linenum=s["filter_unused_linenum"], initialize_vars=s["initialize_vars"], default_width32=s["default_width32"],
+                              output_dependencies=s["output_dependencies"], procname="prog", default_str_storage=16)
+            t80 = texts[tuple(s.values())]
+            if t16.replace("[16]", "[80]") != t80:
+                a, b = t16.replace("[16]", "[80]").split("\n"), t80.split("\n")
+                diff = [x for x in b if x not in a][:3] + ["missing at 16: "] if len(a) != len(b) else [(x, y) for x, y in zip(a, b) if x != y][:2]
+                bad.append(dict(other_options={k: v for k, v in s.items() if k != "str80"}, lines_at_80=len(b), lines_at_16=len(a), first=diff))
+        return [ob("footprint/string size below the BASIC09 default", not bad, "size 16 and size 80 differ in the declared numbers only", bad[:2] or "holds for all 16 settings of the other options")]
+    out += guarded("footprint/str16", small)
     return out
 
 
